@@ -1,5 +1,14 @@
 package main
 
+import (
+	"flag"
+	"fmt"
+	"os"
+	"os/exec"
+	"path/filepath"
+	"strings"
+)
+
 // tryReplay turns the solver's counter-model into a test on the real code when a replay
 // generator exists for the function; otherwise it writes the obligation and solver output.
 func tryReplay(w *World, cs *Contracts, ob *Obligation, dir string) (path string, confirmed bool) {
@@ -11,4 +20,48 @@ func tryReplay(w *World, cs *Contracts, ob *Obligation, dir string) (path string
 	return writeReplayNote(dir, ob, "no replay generator for this obligation; the solver output below is the evidence"), false
 }
 
-func replayCmd(args []string) int { return 2 }
+// replayCmd re-runs what a VIOLATION line pointed to: a generated or recorded Go replay test is executed against the real
+// code (exit 1 and REPLAY-CONFIRMED when the failure is still there); a note file (no failing input) names the
+// obligation, which is re-verified alone (exit 1 when it still does not discharge).
+func replayCmd(args []string) int {
+	fs := flag.NewFlagSet("replay", flag.ExitOnError)
+	prop := fs.String("property", "", "property id")
+	fs.Parse(args)
+	if fs.NArg() != 1 {
+		fmt.Fprintln(os.Stderr, "usage: govc replay --property <id> <path>")
+		return 2
+	}
+	path := fs.Arg(0)
+	if strings.HasSuffix(path, ".go") {
+		cmd := exec.Command(filepath.Join(verifDir, "tools", "replay.sh"), path)
+		out, err := cmd.CombinedOutput()
+		fmt.Print(string(out))
+		if err != nil && strings.Contains(string(out), "REPLAY-CONFIRMED") {
+			fmt.Printf("VIOLATION property=%s replay=%s\n", *prop, path)
+			return 1
+		}
+		return 0
+	}
+	data, err := os.ReadFile(path)
+	if err != nil {
+		fmt.Fprintln(os.Stderr, err)
+		return 2
+	}
+	name := ""
+	for _, l := range strings.Split(string(data), "\n") {
+		if strings.HasPrefix(l, "obligation: ") {
+			name = strings.TrimSpace(strings.TrimPrefix(l, "obligation: "))
+			break
+		}
+	}
+	if name == "" {
+		fmt.Fprintln(os.Stderr, "no obligation named in", path)
+		return 2
+	}
+	key := name
+	if i := strings.Index(name, ":"); i >= 0 {
+		key = name[:i]
+	}
+	fmt.Printf("re-verifying %s (function %s)\n", name, key)
+	return verify(runOpts{property: *prop, tier: "quick", only: key, timeoutS: 20, jobs: 16})
+}
